@@ -4,6 +4,7 @@ checked machine arithmetic) returns, without fault, the value of its clean twin 
 `Model/Core.lean` — under the no-overflow / non-zero precondition the call sites establish.
 A source edit that changes what one of these functions computes makes its lemma fail.
 -/
+import Matreex.Lemmas.BridgeSimple
 import Matreex.Gen.Core
 import Matreex.Model.Core
 
